@@ -142,6 +142,10 @@ static void gset_xf(pixman_image_t *img, const gdef_t *g, const gxf_t *x)
 static int gc09_pair_policy(const gscen_t *s, int kind_a, int kind_b)
 {
     if (kind_a != 0 && kind_b != 0) return s->op == PIXMAN_OP_SATURATE ? 1 : 0;                  /* G2 */
+    /* G3: as a component-alpha mask the gradient's colour channels take part in the arithmetic, and the walker's value at a pixel depends by one rounding
+     * tie on where in the scanline it was last reset (see the note on the context mask below): the composite's (clipped) mask scanline and the pre-rendered
+     * copy's scanline need not start at the same pixel.  One step, the gradients' own contract (C13); the two COPIES are still compared exactly. */
+    if (s->role == 2 && !needs_division(s->op)) return 1;
     if (!needs_division(s->op)) return 0;
     if (s->role == 0 && (rc_is_hsl(s->op) || s->op == PIXMAN_OP_COLOR_DODGE || s->op == PIXMAN_OP_COLOR_BURN)) return -1;
     return 2;                                                                                     /* G1 */
